@@ -264,6 +264,17 @@ pub fn c02_oracle(ctx: &mut Ctx, t: &str, o: &Opt, lines: &Option<Vec<LineOut>>)
         }
         let single = frags.as_ref().map(|f| f.iter().any(|x| x == content)).unwrap_or(false);
         if single && (!o.bw || nonzero_visible(content) <= 1) {
+            // with break_words off the exception is stated about the text, not about what the
+            // crate happened to produce: no break opportunity of the separator and no split
+            // point of the splitter inside the overlong part (decided independently of the crate)
+            if !o.bw && independently_breakable(content, o) {
+                ctx.fail(
+                    "line fits the width unless it is one unbreakable fragment",
+                    format!("{}: line {} = {} has display width {} > {} although it contains a break opportunity or split point", call("wrap", t, o), k, show(&l.s), dw(&l.s), o.width),
+                    kf_class(t, o),
+                );
+                return;
+            }
             ctx.count("overflow_single_fragment");
             continue;
         }
@@ -275,6 +286,30 @@ pub fn c02_oracle(ctx: &mut Ctx, t: &str, o: &Opt, lines: &Option<Vec<LineOut>>)
         return;
     }
     ctx.oracle_ok();
+}
+
+/// does `content` (a line without its indent) contain a break opportunity of the configured
+/// separator or a split point of the configured built-in splitter? — computed from the property's
+/// wording, without calling the crate's word finding / splitting
+fn independently_breakable(content: &str, o: &Opt) -> bool {
+    let cs: Vec<char> = content.chars().collect();
+    let sep_break = match o.sep {
+        'a' => cs.windows(2).any(|w| w[0] == ' ' && w[1] != ' '),
+        _ => {
+            #[cfg(feature = "full")]
+            {
+                let vis = visible_text(content);
+                let r = unicode_linebreak::linebreaks(&vis).any(|(i, _)| i < vis.len() && !matches!(vis[..i].chars().next_back(), Some('-') | Some('\u{ad}')));
+                r
+            }
+            #[cfg(not(feature = "full"))]
+            {
+                false
+            }
+        }
+    };
+    let split_point = o.splitter == "h" && (1..cs.len().saturating_sub(1)).any(|i| cs[i] == '-' && cs[i - 1].is_alphanumeric() && cs[i + 1].is_alphanumeric());
+    sep_break || split_point
 }
 
 fn c02_input(rng: &mut Rng) -> (String, Opt) {
@@ -585,6 +620,15 @@ fn coloured(rng: &mut Rng, hyphen_splitter: bool) -> (String, String, Vec<(Vec<(
     let n = 1 + rng.below(7);
     let mut vis: Vec<char> = Vec::new();
     for _ in 0..n {
+        if rng.chance(1, 10) {
+            // control characters (width 0 with unicode-width, 1 without) and characters from
+            // outside the fixed alphabets, inside coloured words
+            let c = if rng.chance(1, 2) { *rng.pick(&['\u{7f}', '\t', '\u{7}', '\u{1}', '\u{85}']) } else { gen::exotic(rng) };
+            if c != '\n' && c != '\u{1b}' {
+                vis.push(c);
+                continue;
+            }
+        }
         let tok: &str = if rng.chance(1, 4) { *rng.pick(gen::WIDE) } else { *rng.pick(gen::PLAIN) };
         vis.extend(tok.chars());
         if rng.chance(1, 8) {
@@ -989,9 +1033,16 @@ pub fn c17(ctx: &mut Ctx) {
 pub fn c20(ctx: &mut Ctx) {
     let gaps: &[&str] = &["", "", " ", "| ", " | ", "│", "👉", "--", "\u{301}"];
     for i in 0..ctx.n(30000, 600_000) {
-        let (t, mut o) = wrap_input(&mut ctx.rng, false);
+        let (mut t, mut o) = wrap_input(&mut ctx.rng, false);
         let cols = 1 + ctx.rng.below(4);
         o.width = if i % 5 == 0 { ctx.rng.below(4) } else { ctx.rng.below(30) };
+        if i % 400 == 399 {
+            // wide layouts: rows of 2^8 .. 2^17 columns (the padding is produced by code that may
+            // go through narrower integer types); short text keeps the number of rows small
+            o.width = [255usize, 256, 257, 65_535, 65_536, 65_537, 70_000, 131_073][ctx.rng.below(8)] * cols + ctx.rng.below(3);
+            t = gen::para(&mut ctx.rng, Flavor::Wide, 4);
+            ctx.count("wide_layout");
+        }
         let (l, m, r) = (*ctx.rng.pick(gaps), *ctx.rng.pick(gaps), *ctx.rng.pick(gaps));
         let (op, rows) = op_columns(&t, &o, cols, l, m, r);
         let d = format!("wrap_columns({}, {}, {}, {:?}, {:?}, {:?})", show(&t), cols, o.show(), l, m, r);
